@@ -71,7 +71,7 @@ Fixpoint is_perm (l1 l2 : list Z) : bool :=
   | x :: r => match remove_one x l2 with Some l2' => is_perm r l2' | None => false end
   end.
 
-(* operator==, lines 624-645 *)
+(* operator==, lines 624-647.  Keys are (id, tag): key_eq compares ids, operator== of the key compares both *)
 Definition w_eq (l r : mm) : bool :=
   if negb (get_count l =? get_count r) then false
   else forallb (fun e =>
@@ -79,7 +79,8 @@ Definition w_eq (l r : mm) : bool :=
          else match find (ekey e) (fst r) with
               | None => false
               | Some e' =>
-                  if negb (length (evals e) =? length (evals e'))%nat then false
+                  if negb (etag e =? etag e') then false                (* !(ref.key == rightKeyIter->key), fix 4339d66 *)
+                  else if negb (length (evals e) =? length (evals e'))%nat then false
                   else is_perm (evals e) (evals e')
               end) (fst l).
 
@@ -216,11 +217,14 @@ Proof.
   rewrite app_length, Nat2Z.inj_add, IH. unfold pairs_of, elen. rewrite map_length. reflexivity.
 Qed.
 
+(* keys for which key_eq-equivalence is == (std::equal_to): every tag is 0 *)
+Definition plain_keys (es : list entry) : Prop := Forall (fun e => etag e = 0) es.
+
 (* operator== is exactly multiset equality of the (key, value) pairs: value-less keys are invisible *)
-Theorem w_eq_iff_pairs_permutation l r : WInv l -> WInv r ->
+Theorem w_eq_iff_pairs_permutation l r : WInv l -> WInv r -> plain_keys (fst l) -> plain_keys (fst r) ->
   (w_eq l r = true <-> Permutation (pairs l) (pairs r)).
 Proof.
-  intros [NL CL] [NR CR]. unfold w_eq, pairs, get_count. destruct l as [el nl], r as [er nr]. simpl in *. subst nl nr.
+  intros [NL CL] [NR CR] PL PR. unfold w_eq, pairs, get_count. destruct l as [el nl], r as [er nr]. simpl in *. subst nl nr.
   split.
   - (* -> *)
     destruct (Z.eqb_spec (sumlen el) (sumlen er)) as [EC|]; simpl; [|discriminate].
@@ -230,6 +234,7 @@ Proof.
               exists e', find (ekey e) er = Some e' /\ Permutation (evals e) (evals e')) as PK.
     { intros e I NZ. specialize (FA e I). destruct (Nat.eqb_spec (length (evals e)) 0); [contradiction|].
       destruct (find (ekey e) er) as [e'|]; [|discriminate]. exists e'. split; auto.
+      destruct (negb (etag e =? etag e')); [discriminate|].
       destruct (negb (length (evals e) =? length (evals e'))%nat); [discriminate|]. apply is_perm_spec; auto. }
     (* the non-empty keys of l account for all values of r *)
     assert (sumlen_on (nonempty_keys el) er = sumlen_on (nonempty_keys el) el) as SO.
@@ -275,8 +280,11 @@ Proof.
     assert (forall v, count_occ Z.eq_dec (evals e) v =
               match find (ekey e) er with Some e' => count_occ Z.eq_dec (evals e') v | None => O end) as CV.
     { intros v. specialize (CO (ekey e, v)). rewrite !count_pairs in CO by auto. rewrite FL in CO. exact CO. }
-    destruct (find (ekey e) er) as [e'|].
+    destruct (find (ekey e) er) as [e'|] eqn:FR.
     + assert (Permutation (evals e) (evals e')) as PE by (apply perm_count_len; exact CV).
+      assert (etag e = etag e') as ->.
+      { unfold plain_keys in *. rewrite Forall_forall in PL, PR. rewrite (PL e I), (PR e' (find_in _ _ _ FR)). reflexivity. }
+      rewrite Z.eqb_refl. simpl.
       rewrite (Permutation_length PE), Nat.eqb_refl. simpl. apply is_perm_spec. exact PE.
     + exfalso. destruct (evals e) as [|v vs]; [simpl in L; lia|].
       specialize (CV v). simpl in CV. destruct (Z.eq_dec v v); [discriminate|contradiction].
@@ -528,3 +536,32 @@ Proof.
       replace a with (length (all_pairs pre)) by lia. rewrite <- length_pairs_of. rewrite slice_mid.
       apply Permutation_refl.
 Qed.
+
+(* ---------------------------------------------------------------- plain keys are preserved by the wrapper's calls *)
+Definition op_plain (o : op) : Prop :=
+  match o with OAdd _ t _ => t = 0 | OInsertKey _ t => t = 0 | OResetKey _ t => t = 0 | _ => True end.
+
+Lemma plain_upd k f es : plain_keys es -> (forall e, etag e = 0 -> etag (f e) = 0) -> plain_keys (upd k f es).
+Proof.
+  unfold plain_keys. intros H Hf. induction es as [|a r IH]; simpl; auto. inversion H; subst.
+  destruct (ekey a =? k); constructor; auto.
+Qed.
+
+Lemma plain_step1 M m o : plain_keys (fst m) -> op_plain o -> plain_keys (fst (step1 M m o)).
+Proof.
+  intros P HO. destruct m as [es n]. simpl in *. destruct o; simpl in *; auto.
+  - destruct (find k es); simpl.
+    + apply plain_upd; auto.
+    + apply Forall_app; split; auto.
+  - destruct (find k es); simpl; auto. apply plain_upd; auto.
+  - destruct (find k es); simpl; auto. apply Forall_app; split; auto.
+  - destruct (find k es) as [e|]; simpl; auto. destruct (i <? length (evals e))%nat; simpl; auto. apply plain_upd; auto.
+  - apply Forall_map. eapply Forall_impl; [|exact P]. auto.
+  - destruct (find k es); simpl; auto. apply plain_upd; auto.
+  - destruct (find k es); simpl; auto. apply forall_remove; auto.
+  - apply plain_upd; auto.
+  - constructor.
+Qed.
+
+Lemma plain_copy M m : plain_keys (fst m) -> plain_keys (fst (mm_copy M m)).
+Proof. intros P. simpl. apply Forall_map. eapply Forall_impl; [|exact P]. auto. Qed.
